@@ -177,7 +177,10 @@ def run(ctx: Ctx):
     several_paths_per_search = any((_depth(f.node, n) or 0) >= 3 for n in fl_upd)
     if len(rs) >= 1 and not rm and several_paths_per_search:
         ctx.ob("C08-O2", "R18 SIBLING-AGREEMENT (expression)", f, "the bottleneck of an augmentation is the minimum residual along the path, read from the tables when the path is applied (in the augmenting loop)", False, "one search result is applied as several paths and the augmenting loop computes no residual: a bottleneck measured during the search is stale as soon as another path found by the same search has been applied - paths that share an arc overfill it", node=f.node)
-    ctx.require(len(rs) == 1 and len(rm) == 1, "residual computation not found once in bfs and once in the augmentation")
+    ctx.require(len(rs) >= 1 and len(rm) >= 1, "residual computation not found in bfs or in the augmentation")
+    if len(rs) != 1 or len(rm) != 1 or any(isinstance(n_, ast.AugAssign) and isinstance(n_.target, ast.Name) and n_.target.id == "residual" for n_ in own_nodes(bfs.node)):
+        extra_ = (rm[1:] or rs[1:] or rs)[0]
+        ctx.ob("C08-O2", "R18 SIBLING-AGREEMENT (expression)", f, "the residual of an arc is computed in one expression, once in the search and once for the bottleneck", False, f"{len(rs)} form(s) in the search, {len(rm)} in the augmentation (e.g. `{ast.unparse(extra_[0])[:60]}`), or a residual assembled in steps: search, bottleneck and update each need the same `capacity - flow + reverse flow`; a second notion of room (the arc's own spare capacity first, the reverse flow only sometimes) lets the update leave flow on both arcs of a pair that the search then cannot cancel", node=extra_[2])
     c1 = canon(rs[0][0], rs[0][1])
     c2 = canon(rm[0][0], rm[0][1])
     want = canon(ast.parse("capacity[A][B] - flow[A][B] + flow[B][A]", mode="eval").body)
@@ -421,7 +424,13 @@ def _v_row_assigned_wholesale(tree):
     loop[0].body[0:0] = M.stmts("capacity[u] = defaultdict(int)")
 
 
+def _v_two_notions_of_room(tree):
+    g = M.find_func(tree, "max_flow.bfs")
+    M.replace_stmt(g, lambda s: isinstance(s, ast.Assign) and M.src_is(s.targets[0], "residual"), M.stmts("residual = capacity[node][neighbor] - flow[node][neighbor]\nif residual == capacity[node][neighbor]:\n    residual += flow[neighbor][node]"))
+
+
 VARIANTS = [
+    M.Variant("the search counts reverse flow as room only on arcs without forward flow (half of seed C08-V)", FL, _v_two_notions_of_room, "C08-O2"),
     M.Variant("the build loop gives every listed node a fresh row, dropping reverse arcs entered earlier (seed C08-S)", FL, _v_row_assigned_wholesale, "C08-O5"),
     M.Variant("warm start fills two-hop routes by hand before the first search (seed C08-Q)", FL, _v_warm_start_two_hop_routes, "C08-O3"),
 
